@@ -3,13 +3,23 @@
 A property is claimed iff it has an entry in CLAIMED."""
 import json, subprocess, sys
 
-HOOK_COMMITS = ["89cc7e2"]
+HOOK_COMMITS = ["89cc7e2", "26df212"]
 
 # id -> (technique, level text, level note, design_ref)
 CLAIMED = {
  "C01": ("proptest-generated SQL statements (choice-tape grammar generator) over generated small tables, differential against an independent reference SQL evaluator (refsql, itself cross-checked against SQLite)",
          "Generated statements over the full grammar of the property (projection, WHERE, all join kinds, GROUP BY/HAVING, DISTINCT, ORDER BY/LIMIT/OFFSET with tie-group validity, set operations, derived tables, CTEs, correlated/uncorrelated subqueries, CASE/COALESCE/IN/BETWEEN/LIKE) on tables with NULLs and duplicates and random batch splits; engine answer must equal the reference multiset / ORDER BY tie groups, an engine error is allowed. Two generated checks: a core grammar measured free of open findings, and the full grammar whose disagreements are attributed to an open finding only through precise signature predicates (kf_sql.rs). Exploration: thousands of cases per run, ~100+ distinct NULL/duplicate-sensitive multi-clause statements.",
          "Trusts refsql (validated against SQLite on ~15k generated statements with zero semantic disagreement) and the harness comparison rules (DESIGN 3.4). Statements producing -0.0/NaN, integer overflow or LIMIT inside sub-selects are excluded by construction.", "5 C01"),
+ "C04": ("configuration differential (engine vs engine, refsql as third opinion): one generated row set registered as memory (1 batch / random batches) and as Parquet in several generated layouts, with morsel execution on/off and with the verif-hooks threshold overrides (forced streaming scan, no prescan, forced disjoint aggregation)",
+         "Filtered scans, global and grouped aggregates (nullable / Int32 / Date32 / dense and sparse keys), self-joins and repeated references, joins over streaming probes, sort/limit: every layout and path must return the same answer, and an error on one layout only is a violation. Path marks (verif-hooks) measure which scan/aggregate path ran. Exploration.",
+         "Forced-path variants run single-threaded because the overrides are process-global atomics.", "5 C04"),
+ "C07": ("configuration differential: batch layouts in-process (repeated runs), thread counts in sub-process workers (RAYON_NUM_THREADS 1/2/3/8), and a partition walk executing every declared output partition of every physical operator",
+         "The same statement over the same rows must answer the same for one batch vs random batch layouts (incl. >=1000 rows in >=2 batches), under every thread count, and on repetition; every partition 0..output_partitions() of every operator must execute and partition output_partitions() must be refused. Exploration; interleavings are varied by repetition only.",
+         "rayon's pool size is per process, hence sub-process workers.", "5 C07"),
+ "C08": ("configuration differential: each statement under log-uniform memory limits from 16 B to 64 MB (plus limits placed near the data size) vs the default budget",
+         "Sorts over every key type with DESC / NULLS FIRST, top-k with OFFSET, joins of every kind and key type, grouped / global / DISTINCT aggregates over 300-9,500-row tables in 1-17 batches: the limited answer equals the unlimited answer or is an explicit error. Non-trivial = a limited run really spilled and answered. Exploration.",
+         "Spill is detected through the engine's own spill metrics.", "5 C08"),
+
  "C11": ("proptest over synthetic footer-only and real Parquet inventories: validity predicate over the SplitSet + metamorphic invariances (file order, mount path) + digest sensitivity",
          "Generated tables of 1-12 files x 0-10 row groups (rows 0..1e7, bytes 0..2^40 via footer-only files written with ParquetMetaDataWriter, plus real files), 1..64 nodes: splits must cover each non-empty row group exactly once in contiguous ranges, bytes/rows must sum exactly, order must be canonical; permuting the file list or moving the files must not change sequence or digest; changing one attribute must change the digest. Exploration.",
          "Footer-only files stand in for huge row groups; the engine's footer cache is keyed by path so every case uses fresh paths.", "5 C11"),
